@@ -79,6 +79,41 @@ def padded_family(rng, with_header):
             "cells": cells, "header": header}
 
 
+def mixed_family(rng, with_header):
+    """tables whose columns are drawn from the classes of the agreement theorems (HeaderProofs): plain numbers,
+    fixed-width lower-case text (name of another length / first row of that width), variable-width lower-case text
+    (casts no vote) and blank columns; column 0 is numeric, so at least one column votes the right way"""
+    delim = rng.choice(cc.DELIMS)
+    letters = "ghjkmqrsuvwz"
+    classes = ["num"] + [rng.choice(["num", "fixed", "fixed", "var", "var", "blank"]) for _ in range(rng.randint(1, 5))]
+    ncols = len(classes)
+    nrows = rng.randint(3, 12)
+    widths = [rng.randint(1, 5) for _ in range(ncols)]
+    cells = []
+    for r in range(nrows):
+        row = []
+        for c, k in enumerate(classes):
+            if k == "num":
+                row.append(str(rng.randint(-9999, 9999)) if rng.random() < 0.7 else "%.2f" % rng.uniform(-50, 50))
+            elif k == "fixed":
+                row.append("".join(rng.choice(letters) for _ in range(widths[c])))
+            elif k == "var":
+                w = [2, 5][r] if r < 2 else rng.randint(1, 8)          # two different widths among the first rows
+                row.append("".join(rng.choice(letters) for _ in range(w)))
+            else:
+                row.append("")
+        cells.append(row)
+    header = None
+    if with_header:
+        header = []
+        for c, k in enumerate(classes):
+            ln = widths[c] + rng.randint(1, 4) if k == "fixed" else rng.randint(3, 9)
+            header.append("".join(rng.choice(letters) for _ in range(ln)))
+    kinds = ["num" if k == "num" else "void" if k == "blank" else "text" for k in classes]
+    return {"delim": delim, "ncols": ncols, "nrows": nrows, "out": 0, "out_kind": "num", "kinds": kinds,
+            "cells": cells, "header": header}
+
+
 def table_text(t, rng, tame=False):
     rows = ([t["header"]] if t["header"] is not None else []) + t["cells"]
     if tame:
@@ -108,6 +143,7 @@ def xrff_case(rng):
         if ty == "nominal":
             a["labels"] = sorted({r[c] for r in t["cells"]})
         attrs.append(a)
+    t["attrs"] = attrs
     return t, cc.render_xrff(attrs, t["cells"])
 
 
@@ -175,6 +211,19 @@ def gen_cases(ck):
         for (d, h) in ((0, -1), (t["delim"], -1), (t["delim"], hdr)):
             cases.append({"mode": "csv", "table": t, "sniffed": (d == 0, h == -1),
                           "line": cc.csv_line(txt, d, h, False, 0)})
+    # 3c. mixed column classes of the agreement theorems (numeric / fixed-width text / variable text / blank)
+    for _ in range(70 * n):
+        t = mixed_family(rng, rng.random() < 0.5)
+        txt = table_text(t, rng, tame=True)
+        hdr = 1 if t["header"] is not None else 0
+        for (d, h) in ((0, -1), (t["delim"], hdr)):
+            cases.append({"mode": "csv", "table": t, "sniffed": (d == 0, h == -1),
+                          "line": cc.csv_line(txt, d, h, False, 0)})
+    # 3d. members of the refuted families (Refuted_C09.v): no verdict, model and implementation must agree
+    for txt in ("name,city\nalice,rome\nbob,paris\n", "Rome,Lazio\nmilan,lombardy\nturin,piedmont\n",
+                "ab,cd\nef,gh\nij,kl\n"):
+        for out in (0, None):
+            cases.append({"mode": "raw", "line": cc.csv_line(txt, 0, -1, False, out)})
     # 4. src_problem + the program Xi
     for _ in range(150 * n):
         cl = rng.random() < 0.4
@@ -205,8 +254,130 @@ def gen_cases(ck):
     return cases
 
 
-def evaluate(ck, cases, hout, crashes, mout):
+def judge_case(c, got):
+    """the property oracle for one case: list of (key, message)"""
+    t = c.get("table")
+    bad = []
+    if got["kind"] == "CRASH":
+        return [("%s:sanitizer" % c["mode"], "the reader executes undefined behaviour on a table (sanitizer report)")]
+    if c["mode"] in ("csv", "xrff"):
+        bad = cc.judge_frame(t, got, c.get("rows"), c["mode"])
+        if c.get("sniffed") and bad:
+            bad = [("sniff:disagree", "sniffed %s: %s" % (c["sniffed"], b[1])) for b in bad]
+    elif c["mode"] == "prob":
+        bad = cc.judge_frame(t, got, None, "prob") or cc.judge_vars(t, got)
+    elif c["mode"] == "line" and "fields" in c:
+        want = [f.strip(cc.WS) if c["trim"] else f for f in c["fields"]]
+        have = [x.decode("latin1") for x in got.get("rec", [])]
+        if want != have:
+            bad = [("line:parse-render", "parse_line(render(%r)) = %r" % (c["fields"], have))]
+    if bad and c.get("key_override"):
+        bad = [(c["key_override"], bad[0][1])]
+    return bad
+
+
+def case_with_table(c, t):
+    """the case c re-rendered for the (smaller) table t: deterministic minimal quoting, same reading parameters"""
+    w = c["line"].split(" ")
+    rows = ([t["header"]] if t["header"] is not None else []) + t["cells"]
+    if c["mode"] == "xrff":
+        txt = cc.render_xrff(t["attrs"], t["cells"])
+    else:
+        txt = "".join(chr(t["delim"]).join(cc.rfc_field(x, t["delim"], False) for x in r) + "\n" for r in rows)
+    if c["mode"] == "csv":
+        w[2] = cc.hx(txt)
+        w[6] = "-1" if t["out"] is None else str(t["out"])
+    else:
+        w[2] = cc.hx(txt)
+    c2 = dict(c)
+    c2["table"] = t
+    c2["line"] = " ".join(w)
+    return c2
+
+
+def table_ok(t):
+    """still inside the property's domain after removing rows/columns"""
+    if len(t["cells"]) < 1 or t["ncols"] < 2:
+        return False
+    first = t["cells"][0]
+    for c in range(t["ncols"]):
+        if t["kinds"][c] == "text" and first[c].strip(cc.WS) == "":
+            return False
+    if t["out_kind"] == "class" and len({r[t["out"]].strip(cc.WS) for r in t["cells"]}) < 2:
+        return False
+    if not all(any(x.strip(cc.WS) for x in r) for r in t["cells"]):
+        return False
+    ins = [c for c in range(t["ncols"]) if c != t["out"]]
+    return any(t["kinds"][c] != "void" for c in ins)
+
+
+def drop_column(t, c):
+    t2 = dict(t)
+    t2["ncols"] = t["ncols"] - 1
+    t2["kinds"] = t["kinds"][:c] + t["kinds"][c + 1:]
+    t2["cells"] = [r[:c] + r[c + 1:] for r in t["cells"]]
+    t2["header"] = None if t["header"] is None else t["header"][:c] + t["header"][c + 1:]
+    if t.get("attrs") is not None:
+        t2["attrs"] = t["attrs"][:c] + t["attrs"][c + 1:]
+    if t["out"] is not None and c < t["out"]:
+        t2["out"] = t["out"] - 1
+    return t2
+
+
+def shrink_table_case(harness, c, key, budget=70):
+    """greedy shrinking of a table case whose oracle verdict has key `key`: re-render with minimal quoting, drop
+    data rows, then drop non-output columns, as long as the implementation still violates the same clause"""
+    if c.get("table") is None or c.get("rows") is not None or c["mode"] not in ("csv", "prob", "xrff") \
+            or c.get("key_override"):
+        return c
+    sniffed = bool(c.get("sniffed")) or c["mode"] == "prob"      # keep sniffing unambiguous: rows only, >= 2 of them
+
+    def fails(c2):
+        out, _ = cc.pc.run_harness_resilient(harness, [c2["line"]])
+        bad = judge_case(c2, cc.parse_out(out[0]))
+        return bool(bad) and bad[0][0] == key, out[0]
+
+    t = dict(c["table"])
+    t["nrows"] = len(t["cells"])
+    base = case_with_table(c, t)
+    ok, o = fails(base)
+    budget -= 1
+    if not ok:
+        return c
+    best, best_out = base, o
+    i = 0
+    while i < len(t["cells"]) and budget > 0:
+        t2 = dict(t)
+        t2["cells"] = t["cells"][:i] + t["cells"][i + 1:]
+        t2["nrows"] = len(t2["cells"])
+        if table_ok(t2) and (not sniffed or len(t2["cells"]) >= 2):
+            budget -= 1
+            cand = case_with_table(c, t2)
+            ok, o = fails(cand)
+            if ok:
+                t, best, best_out = t2, cand, o
+                continue
+        i += 1
+    col = 0
+    while col < t["ncols"] and budget > 0 and not sniffed:
+        if col != t["out"]:
+            t2 = drop_column(t, col)
+            if table_ok(t2) and (c["mode"] != "prob" or t2["out"] == 0):
+                budget -= 1
+                cand = case_with_table(c, t2)
+                ok, o = fails(cand)
+                if ok:
+                    t, best, best_out = t2, cand, o
+                    continue
+        col += 1
+    best = dict(best)
+    best["shrunk_impl"] = best_out
+    return best
+
+
+def evaluate(ck, cases, hout, crashes, mout, harness=None):
     hist = {}
+    shrunk = {}
     for k, c in enumerate(cases):
         ck.count()
         hist[c["mode"]] = hist.get(c["mode"], 0) + 1
@@ -217,28 +388,24 @@ def evaluate(ck, cases, hout, crashes, mout):
             ck.sample({"mode": c["mode"], "line": c["line"][:160], "impl": (ho or "")[:200], "model": mo[:200]})
         if t is not None and t["nrows"] >= 2:
             ck.nontriv(c["line"])
-        elif c["mode"] == "line":
+        elif c["mode"] in ("line", "raw"):
             ck.nontriv(c["line"])
         replay = {"mode": c["mode"], "line": c["line"], "impl": ho, "model": mo,
                   "table": t, "rows": c.get("rows"), "fields": c.get("fields"), "trim": c.get("trim")}
-        if got["kind"] == "CRASH":
-            ck.add_violation("%s:sanitizer" % c["mode"], "the reader executes undefined behaviour on a table (sanitizer report)",
-                             dict(replay, sanitizer=crashes.get(k, "")[-1500:]))
-            continue
-        bad = []
-        if c["mode"] in ("csv", "xrff"):
-            bad = cc.judge_frame(t, got, c.get("rows"), c["mode"])
-            if c.get("sniffed") and bad:
-                bad = [("sniff:disagree", "sniffed %s: %s" % (c["sniffed"], b[1])) for b in bad]
-        elif c["mode"] == "prob":
-            bad = cc.judge_frame(t, got, None, "prob") or cc.judge_vars(t, got)
-        elif c["mode"] == "line" and "fields" in c:
-            want = [f.strip(cc.WS) if c["trim"] else f for f in c["fields"]]
-            have = [x.decode("latin1") for x in got.get("rec", [])]
-            if want != have:
-                bad = [("line:parse-render", "parse_line(render(%r)) = %r" % (c["fields"], have))]
+        bad = judge_case(c, got)
         for key, msg in bad[:1]:
-            ck.add_violation(c.get("key_override", key), msg, replay)
+            if got["kind"] == "CRASH":
+                replay = dict(replay, sanitizer=crashes.get(k, "")[-1500:])
+            if harness is not None and key not in shrunk and not ck.replay_path:
+                small = shrink_table_case(harness, c, key)
+                shrunk[key] = True
+                if small is not c:
+                    replay = dict(replay, line=small["line"], table=small["table"], impl=small.get("shrunk_impl"),
+                                  original_line=c["line"],
+                                  input_text=cc.unhx(small["line"].split(" ")[2]).decode("latin1")[:600])
+            ck.add_violation(key, msg, replay)
+        if got["kind"] == "CRASH":
+            continue
         if cc.canon(ho) != cc.canon(mo):
             ck.add_diff({"mode": c["mode"], "line": c["line"][:400]}, mo[:600], (ho or "")[:600])
     ck.coverage["per_mode"] = hist
@@ -251,6 +418,14 @@ def evaluate(ck, cases, hout, crashes, mout):
 
 
 def run(ck):
+    regenerated, problems = cc.regen_consts()
+    if regenerated:
+        ck.tie = "regenerated+correspondence"
+        ck.trusted.append("translate/csv_consts.py (regular expressions over pocket_csv.h / dataframe.cc -> coq/Gen/CsvConsts.v); "
+                          "only the literal constants are regenerated, the control flow of the model is hand-written")
+    else:
+        ck.notes.append("translator csv_consts: " + "; ".join(problems)[:400] +
+                        " -- coq/Gen/CsvConsts.v kept as checked in, tie = correspondence only")
     res = vv.prove("Properties_C09", set())
     ck.add_proof(res)
     ck.add_proof(vv.prove("Refuted_C09", set()))
@@ -277,10 +452,10 @@ def run(ck):
     rc, mout, merr = vv.run_lines(model, "\n".join(ml) + "\n")
     if rc != 0 or len(mout) != len(ml):
         raise vv.BuildError("model driver failed: rc=%s %s" % (rc, merr[:500]))
-    evaluate(ck, cases, hout, crashes, mout)
+    evaluate(ck, cases, hout, crashes, mout, harness)
     return ck.finish(
         rule="seeded random rectangular tables (2-6 columns, 2-14 rows; numeric/text/void columns; every delimiter; header or "
              "not; every output index and none; random quoting; printable cell text with quotes, delimiters, blanks), the "
-             "same with a filter hook, sniffed vs explicit settings on unambiguous tables (plain numeric tables, and space-padded tables whose fixed-width code columns outnumber the numeric ones), src_problem + program Xi, XRFF "
+             "same with a filter hook, sniffed vs explicit settings on unambiguous tables (plain numeric tables, space-padded tables whose fixed-width code columns outnumber the numeric ones, and tables mixing numeric / fixed-width text / variable-width text / blank columns as in the agreement theorems), src_problem + program Xi, XRFF "
              "renderings, and single lines for parse_line; non-trivial = a table with >= 2 data rows and >= 2 columns or a "
              "non-blank line; distinct = distinct input text and parameters")
